@@ -135,8 +135,12 @@ def fam_concurrent(w: World) -> None:
     infos = [S.gen_document(ch, exotic=True, max_len=3, allow_junk=True, tok_prefix='d0_')]
     for d in range(1, n_del):
         if same:
-            text = infos[0]['text'].replace('d0_', f'd{d}_')
-            doc = json.loads(text) if infos[0]['doc'] is not None else None
+            if infos[0]['doc'] is not None:
+                # tokens are renamed in the parsed document (the first delivery may be spelled with escapes)
+                text = json.dumps(infos[0]['doc']).replace('d0_', f'd{d}_')
+                doc = json.loads(text)
+            else:
+                text, doc = infos[0]['text'], None
             infos.append(dict(infos[0], text=text, doc=doc))
         else:
             infos.append(S.gen_document(ch, exotic=True, max_len=3, allow_junk=True, tok_prefix=f'd{d}_'))
